@@ -58,7 +58,7 @@ theorem noAdjacentText_append_nontext : ∀ (K ts : List HTree), (∀ k ∈ K, k
     refine ⟨by simp [hK a (by simp)], ?_⟩
     exact noAdjacentText_append_nontext (b :: K) ts (fun k hk => hK k (List.mem_cons_of_mem _ hk)) h
 
-theorem erase_value (t : HTree) : t.erase.value = t.value := by
+theorem ffx_erase_value (t : HTree) : t.erase.value = t.value := by
   cases t; rfl
 
 theorem treeOfContent_isText (c : FContent) : (treeOfContent c).value.isText = c.isText := by
@@ -77,7 +77,7 @@ theorem built_normal : ∀ (ts : List HTree) (cs : List FContent), eraseList ts 
     intro x hx
     rw [List.mem_cons] at hx
     rcases hx with rfl | hx
-    · rw [← erase_value, h.1]; exact treeOfContent_normal c
+    · rw [← ffx_erase_value, h.1]; exact treeOfContent_normal c
     · exact built_normal ts cs h.2 x hx
 
 theorem built_noAdjacentText : ∀ (ts : List HTree) (cs : List FContent), eraseList ts = treeOfList cs →
@@ -91,7 +91,7 @@ theorem built_noAdjacentText : ∀ (ts : List HTree) (cs : List FContent), erase
     simp only [noAdjacentFText, Bool.and_eq_true] at hn
     simp only [noAdjacentText, Bool.and_eq_true]
     refine ⟨?_, built_noAdjacentText (u :: ts) (d :: cs) (by simp [eraseList, treeOfList, h.2.1, h.2.2]) hn.2⟩
-    rw [← erase_value t, ← erase_value u, h.1, h.2.1, treeOfContent_isText, treeOfContent_isText]
+    rw [← ffx_erase_value t, ← ffx_erase_value u, h.1, h.2.1, treeOfContent_isText, treeOfContent_isText]
     exact hn.1
 
 namespace Forest
